@@ -1,0 +1,36 @@
+//go:build verif && verif_secec
+
+package secec
+
+// Verification hooks (build tags `verif` and `verif_secec`).
+// Expose-only; never called by library code.
+
+import (
+	"io"
+
+	"gitlab.com/yawning/secp256k1-voi"
+)
+
+// VerifSampleRandomScalar exposes sampleRandomScalar.
+func VerifSampleRandomScalar(r io.Reader) (*secp256k1.Scalar, error) {
+	return sampleRandomScalar(r)
+}
+
+// VerifNewDrbgRFC6979 exposes newDrbgRFC6979.
+func VerifNewDrbgRFC6979(x, e *secp256k1.Scalar) io.Reader {
+	return newDrbgRFC6979(x, e)
+}
+
+// VerifVerifyWithPrivateKey exposes the SEC 1 4.1.5 "alternative"
+// verification path that uses the private key.
+func VerifVerifyWithPrivateKey(d *PrivateKey, digest []byte, r, s *secp256k1.Scalar) bool {
+	return verify(d, nil, digest, r, s) == nil
+}
+
+// VerifHashToScalar exposes hashToScalar.
+func VerifHashToScalar(h []byte) (*secp256k1.Scalar, error) { return hashToScalar(h) }
+
+// VerifNonceReader exposes the nonce-derivation reader used by sign.
+func VerifNonceReader(rand io.Reader, d *PrivateKey, e *secp256k1.Scalar) (io.Reader, error) {
+	return mitigateDebianAndSony(rand, domainSepECDSA, d, e)
+}
